@@ -122,6 +122,12 @@ pub(crate) fn render_vardct<S: Sample>(
     ));
     let modular_region =
         modular::compute_modular_region(frame_header, &gmodular, aligned_region, false);
+    // Color channels consist of whole varblocks, even if the whole frame is requested.
+    let modular_region = if modular_region == aligned_region {
+        modular_region
+    } else {
+        Region::with_size(width_rounded as u32, height_rounded as u32)
+    };
     let modular_lf_region =
         modular::compute_modular_region(frame_header, &gmodular, aligned_lf_region, true)
             .intersection(Region::with_size(
